@@ -4,6 +4,7 @@ package harness
 // generic decoder; send hand-written (foreign) frames to a real registry.
 
 import (
+	"sync"
 	"sort"
 	"context"
 	"encoding/json"
@@ -191,6 +192,25 @@ func FamWire[T any](c Codec[T], seed int64) WireRecord {
 	add(SysCall{Tag: 814, From: "A", Method: "Call0", Ret: canon(v14), Err: errText(e14), Done: true})
 	e15 := p.rb.Notify0(ctx, 815)
 	add(SysCall{Tag: 815, From: "B", Method: "Notify0", Err: errText(e15), Done: true})
+	// two callables in one call: every invocation frame names the callable that was invoked
+	v19, e19 := p.ra.Two(ctx, 819, func(ctx context.Context, x int) (int, error) { return x + 10, nil }, func(ctx context.Context, x int) (int, error) { return x + 20, nil })
+	add(SysCall{Tag: 819, From: "A", Method: "Two", Ret: canon(v19), Err: errText(e19), Done: true})
+	// many overlapping calls of one function: every request frame carries its own call's arguments
+	{
+		var bw sync.WaitGroup
+		var bmu sync.Mutex
+		for k := 0; k < 120; k++ {
+			bw.Add(1)
+			go func() {
+				defer bw.Done()
+				v, err := p.rb.EchoInt(ctx, 82000+k, int64(7000+k))
+				bmu.Lock()
+				add(SysCall{Tag: 82000 + k, From: "B", Method: "EchoInt", Arg: fmt.Sprint(7000 + k), Ret: canon(v), Err: errText(err), Done: true})
+				bmu.Unlock()
+			}()
+		}
+		bw.Wait()
+	}
 	// a nil callable is an argument like any other: one element per non-context argument
 	e16 := p.ra.Keep(ctx, 816, nil)
 	add(SysCall{Tag: 816, From: "A", Method: "Keep", Err: errText(e16), Done: true})
